@@ -42,7 +42,8 @@ def apply_ops(base, ops):
 
 
 def _record(job):
-    base, members, filters, password, header, mode = job
+    base, members, filters, password, header, mode = job[:6]
+    style = job[6] if len(job) > 6 else "str"
     import py7zr
     t = Tracer(base or b"")
     kw = {}
@@ -55,8 +56,39 @@ def _record(job):
     with py7zr.SevenZipFile(t, mode, **kw) as z:
         if header == "raw":
             z.set_encoded_header_mode(False)
-        for i, (n, d) in enumerate(members):
-            z.writestr(d, n) if i % 2 == 0 else z.writef(io.BytesIO(d), n)
+        if style == "str":
+            for i, (n, d) in enumerate(members):
+                z.writestr(d, n) if i % 2 == 0 else z.writef(io.BytesIO(d), n)
+        else:
+            # every way of adding members in one session: writestr, write(path), then writeall() of a tree, then writef
+            import shutil
+            import tempfile
+            work = tempfile.mkdtemp(prefix="verif_c14m_")
+            try:
+                k = max(1, len(members) // 3)
+                for i, (n, d) in enumerate(members[:k]):
+                    if i % 2 == 0:
+                        z.writestr(d, n)
+                    else:
+                        p = os.path.join(work, "single_%d" % i)
+                        with open(p, "wb") as f:
+                            f.write(d)
+                        z.write(p, n)
+                tree = os.path.join(work, "tree")
+                os.makedirs(os.path.join(tree, "sub"))
+                for i, (n, d) in enumerate(members[k:]):
+                    with open(os.path.join(tree, "sub" if i % 2 else "", "f%d" % i), "wb") as f:
+                        f.write(d)
+                z.writeall(tree, "t")
+                if style == "mixed2":
+                    tree2 = os.path.join(work, "tree2")
+                    os.makedirs(tree2)
+                    with open(os.path.join(tree2, "g"), "wb") as f:
+                        f.write(b"second tree " * 7)
+                    z.writeall(tree2, "u")
+                    z.writef(io.BytesIO(b"last"), "zz-last")
+            finally:
+                shutil.rmtree(work, ignore_errors=True)
     return t.ops, t.getvalue()
 
 
@@ -84,6 +116,10 @@ def _open_batch(job):
 def run(ctx):
     rng = ctx.rng
     ctx.lean_obligations("SevenZ.Props.C14")
+    # the order in which a session's bytes reach the file, byte for byte: real sessions (scripted codec stages) vs the
+    # write sequences the crash theorems quantify over (streams ws.ops / ws.eops / ws.aops)
+    import streams_ws
+    streams_ws.run_arch(ctx, n=(60 if ctx.thorough else 24), n_app=(200 if ctx.thorough else 50))
     sessions = []
     ch = dict(arclib.chains())
     confs = [("LZMA2", None, "encoded"), ("Copy", None, "raw"), ("Deflate", "pw", "encrypted"), ("BZip2", None, "encoded")]
@@ -112,6 +148,13 @@ def run(ctx):
         confs.append((lab2, None, hdr2))
         jobs.append((None, m0, ch[lab2], None, hdr2, "w"))
         meta.append(("create:%s/%s" % (lab2, tag), m0, [], None))
+    # sessions that add members through several calls, a later one being writeall() (the member list is then read off
+    # the completed archive, whose own correctness is C01/C02's subject)
+    for lab2, hdr2, style in (("LZMA2", "encoded", "mixed"), ("Copy", "raw", "mixed2"), ("Deflate", "encoded", "mixed2")):
+        confs.append((lab2, None, hdr2))
+        m0 = [("m%d" % i, arclib.gen_content(rng, rng.choice([5, 40, 150]))) for i in range(rng.randrange(4, 8))]
+        jobs.append((None, m0, ch[lab2], None, hdr2, "w", style))
+        meta.append(("create:%s/%s" % (lab2, style), None, [], None))
     rec = sandbox.pmap(_record, jobs, timeout=120)
     # append sessions on top of the created archives
     ajobs, ameta = [], []
@@ -121,6 +164,11 @@ def run(ctx):
             continue
         ops, final = val
         sessions.append((label, b"", ops, final, [], m0, pw))
+        if m0 is None:
+            m2 = [("am%d" % i, arclib.gen_content(rng, rng.choice([5, 40]))) for i in range(4)]
+            ajobs.append((final, m2, ch[lab], pw, header, "a", "mixed"))
+            ameta.append(("append:%s/mixed" % lab, final, None, None, pw))
+            continue
         m1 = [(n, arclib.gen_content(rng, rng.choice([1, 30, 100]))) for n in arclib.gen_names(rng, rng.randrange(1, 3))]
         f = ch[lab] if pw is None else arclib.with_aes(ch[lab])
         ajobs.append((final, m1, f, pw, header, "a"))
@@ -142,9 +190,10 @@ def run(ctx):
             ctx.fail("C14:session_failed", "recording an append session failed: %s" % str(val)[:200], {"session": label})
             continue
         ops, final = val
-        sessions.append((label, base, ops, final, m0, m0 + m1, pw))
+        sessions.append((label, base, ops, final, m0, (m0 + m1) if m0 is not None else None, pw))
 
     crash_lines, crash_impl = [], []
+    gate_imgs = []
     for label, base, ops, final, before, after, pw in sessions:
         if apply_ops(base, ops) != final:
             ctx.broken.append({"kind": "correspondence", "name": "trace-replay", "detail": "replaying the recorded writes does not reproduce the file for " + label})
@@ -173,8 +222,17 @@ def run(ctx):
         flat = []
         for (st, val), b in zip(res, batches):
             flat += val if st == "ok" else [("sandbox-" + st,)] * len(b)
-        want_after = ([n for n, _ in after], {n: d for n, d in after})
-        want_before = ([n for n, _ in before], {n: d for n, d in before}) if base else None
+        if after is None:
+            # member lists read off the complete images, by each reader for itself
+            want_after = arclib.read_archive(final, password=pw)
+            want_before = arclib.read_archive(base, password=pw) if base else None
+            rfin, rbase = refreader.read_many(ctx, [final, base or final], [pw, pw])
+            view = lambda rr: ([m["name"] for m in rr["members"]], {m["name"]: (m["data"] or b"") for m in rr["members"]})  # noqa
+            want_after_ref, want_before_ref = view(rfin), (view(rbase) if base else None)
+        else:
+            want_after = ([n for n, _ in after], {n: d for n, d in after})
+            want_before = ([n for n, _ in before], {n: d for n, d in before}) if base else None
+            want_after_ref, want_before_ref = want_after, want_before
         for img, r, ref in zip(imgs, flat, refs):
             what = uniq[img]
             ctx.case(key=zlib.crc32(img) ^ len(img), nontrivial=img != base and img != final)
@@ -191,12 +249,18 @@ def run(ctx):
                 ctx.count("py7zr/" + label.split(":")[0], "rejected")
             if ref["ok"]:
                 gotr = ([m["name"] for m in ref["members"]], {m["name"]: (m["data"] or b"") for m in ref["members"]})
-                okr = gotr == want_after or (want_before is not None and gotr == want_before)
+                okr = gotr == want_after_ref or (want_before_ref is not None and gotr == want_before_ref)
                 if not okr:
                     ctx.fail("C14:reference_accepts_wrong", "the independent reader accepts a crash image with wrong contents (%s)" % what, inp)
             if len(img) >= 32:
                 crash_lines.append("crash.ok " + img[:32].hex())
                 crash_impl.append(_impl_start_ok(img[:32]))
+            if len(img) <= 3000:
+                gate_imgs.append(img)
+    if gate_imgs:
+        if len(gate_imgs) > 1500:
+            gate_imgs = rng.sample(gate_imgs, 1500)
+        ctx.correspond("crash.gate", ["crash.gate " + (g.hex() or "-") for g in gate_imgs], [_impl_gate(g) for g in gate_imgs])
     if crash_lines:
         sel = list(range(len(crash_lines)))
         if len(sel) > 4000:
@@ -218,6 +282,34 @@ def _impl_start_ok(head):
         return "0"
     except Exception:  # noqa
         return "0"
+
+
+class _Passed(Exception):
+    pass
+
+
+def _impl_gate(img):
+    """the reader's two gates on an image, observed at the point where the verified header bytes are handed to the
+    header parser (Header.retrieve, replaced for the duration by a probe; no source change)"""
+    import zlib
+    import py7zr
+    import py7zr.py7zr as core
+    real = core.Header.retrieve
+
+    def probe(fp, buffer, start_pos, password=None):
+        raise _Passed(buffer.getvalue())
+    core.Header.retrieve = staticmethod(probe)
+    try:
+        try:
+            py7zr.SevenZipFile(io.BytesIO(img), "r").close()
+            return "opened-without-header"
+        except _Passed as e:
+            hdr = e.args[0]
+            return "ok %d %d" % (len(hdr), zlib.crc32(hdr))
+        except Exception:  # noqa  (Bad7zFile; struct.error on an image shorter than 32 bytes: rejected either way)
+            return "none"
+    finally:
+        core.Header.retrieve = real
 
 
 def replay(ctx, data):
